@@ -392,6 +392,10 @@ def replay(ops_list, kinds, codec):
         names = [project(rp.slots[1], codec)["name"], project(rp.slots[2], codec)["name"]]
         steps = []
         for op in ops:
+            # the specification only continues a history from objects with small coefficients (32-bit integers in TLC): so
+            # does the replay
+            if any((not isinstance(v, (int, float))) or abs(v) > 100 for sl_ in (1, 2) for v in dict.values(rp.slots[sl_])):
+                break
             if op[0] in ("idiv", "div"):
                 # a division is only replayed while it is exact on the REAL coefficients (penalty terms of real constraint
                 # methods are not the specification's): otherwise the history ends here, without a verdict
